@@ -589,7 +589,7 @@ Theorem respond_w_vs_ideal buf tcp id rd qname qtype qclass edns limit :
     match answering w_iface qname qtype w with
     | Ok _ =>
       exists r, answering rec_iface qname qtype rec_empty = Ok (tt, r) /\
-        handle_non_axfr_query rec_iface negttl z qname qtype tcp rec_empty = Some r /\
+        (forall tcp', handle_non_axfr_query rec_iface negttl z qname qtype tcp' rec_empty = Some r) /\
         Forall2 (rr_rel xparts) (map q2a (rc_an r)) (m_an m) /\
         Forall2 (rr_rel xparts) (map q2a (rc_ns r)) (m_ns m) /\
         exists M X Oq dsM dsX dsP,
@@ -644,7 +644,7 @@ Proof.
   { unfold respond_w. rewrite Ew. unfold handle_non_axfr_query. unfold answering in Edr.
     destruct (qtype =? QTYPE_ANY)%N; rewrite Edr; rewrite <- Hw3; unfold finish; rewrite EF; reflexivity. }
   split; [exact Em|]. destruct u. exists r3. split; [exact Er|]. split.
-  { unfold handle_non_axfr_query. unfold answering in Er. destruct (qtype =? QTYPE_ANY)%N; rewrite Er; reflexivity. }
+  { intros tcp'. unfold handle_non_axfr_query. unfold answering in Er. destruct (qtype =? QTYPE_ANY)%N; rewrite Er; reflexivity. }
   rewrite Han in Hdan. rewrite Hns in Hdns. split; [exact Hdan|]. split; [exact Hdns|].
   rewrite Har in Hdar. rewrite <- app_assoc in Hdar.
   apply Forall2_app_inv_l in Hdar as (dM & drest & HM & Hrest & Eq).
@@ -676,7 +676,7 @@ Theorem respond_w_vs_resolve reqf apex cls wide recs z buf tcp id rd qname qtype
     decode_msg (firstn len b) = Some m /\
     match answering z neg_ttl w_iface qname qtype w with
     | Ok _ =>
-      exists r, answer_rec z qname qtype tcp = Some r /\
+      exists r, (forall tcp', answer_rec z qname qtype tcp' = Some r) /\
         ResolveRepr.norm_rec r = ResolveS.resolve reqf apex cls (accepted apex cls recs) qname qtype /\
         Forall2 (rr_rel xparts) (map q2a (rc_an r)) (m_an m) /\
         Forall2 (rr_rel xparts) (map q2a (rc_ns r)) (m_ns m) /\
@@ -700,7 +700,7 @@ Proof.
   assert (Hwf : QueryTopP.records_wf recs).
   { unfold QueryTopP.records_wf. eapply Forall_impl; [|exact Hrecs]. intros a [[A _] _]. exact A. }
   destruct (QueryTopP.build_answer_refines reqf Ht apex cls wide recs z qname qtype tcp Hb Hwf Hz) as (r' & Er' & Hres).
-  assert (Er : answer_rec z qname qtype tcp = Some r) by exact Hh.
+  assert (Er : answer_rec z qname qtype tcp = Some r) by exact (Hh tcp).
   rewrite Er in Er'. inversion Er'; subst r'.
-  exists r. auto.
+  exists r. split; [exact Hh|]. auto.
 Qed.
